@@ -1,56 +1,108 @@
-"""The multicast data path of a device built with the `multicast` cargo feature (non-default), under McTrace.tla:
-C05 read for a multicast session - a frame of the group is accepted exactly when it is authentic for the 32-bit
-counter that matches the wire counter, that counter is the next the group may use or a later one and lies below
-maxMcFCount; never twice."""
+"""The multicast part of a device built with the `multicast` cargo feature (non-default), under McTrace.tla: the group
+table, the remote set-up handler that maintains it (FPort 200) and the data path that consults it.  One recording
+(`vh mcdata`), three readings, each reported by the check of the property it belongs to:
+
+  C05  data path - a frame of a group is accepted exactly when it is authentic for the 32-bit counter that matches the
+       wire counter, that counter is the next the group may use or a later one and lies below maxMcFCount; never twice;
+       frames of deleted / replaced groups are ignored; payloads delivered under that counter (clauses "C05 (multicast)")
+  C08  set-up handler - one answer per request in request order, the table changes exactly as answered, the answers are
+       transmitted at once on FPort 200 (clauses "multicast set-up")
+  C06  every uplink of these histories (including the handler's own and those whose receive procedure a multicast frame
+       ended) carries a counter strictly greater than the previous one and a MIC under it (CertTrace.tla clauses)."""
 import glob, json, os, re
 from . import core, macfam
 
-_MM = re.compile(r'^<<\s*"MISMATCH",\s*(\d+),')
+_MM = re.compile(r'^<<\s*"MISMATCH",\s*(\d+),\s*(?:<<\s*)?"([^"]*)"')
+_KN = re.compile(r'^<<\s*"KNOWN",\s*(\d+),\s*"([^"]+)"')
+
+CLAUSES = {"C05": ("C05 (multicast)",), "C08": ("multicast set-up", "McAddr", "McAppSKey", "McNetSKey", "maxMcFCount"), "C06": ()}
+SIG_OWNER = {"mc-delete-ans-undefined-drops-group-id": "C08"}
 
 
-def validate(pid, traces):
-    return core.validate_traces("McTrace.tla", "McTrace.cfg", traces, pid + "-mc", xmx="3g")
+def open_signatures():
+    p = os.path.join(core.ROOT, "known_findings.json")
+    return {k["signature"]: k for k in json.load(open(p)).get("findings", [])
+            if k.get("status") == "open" and str(k.get("signature", "")).startswith("mc-")}
+
+
+def validate(pid, traces, wd):
+    kf = os.path.join(wd, "known_mc.json")
+    with open(kf, "w") as f:
+        json.dump(sorted(open_signatures()), f)
+    return core.validate_traces("McTrace.tla", "McTrace.cfg", traces, pid + "-mc", env={"KNOWN": kf}, xmx="3g")
+
+
+def record(wd):
+    d = os.path.join(wd, "mcdata")
+    os.makedirs(d, exist_ok=True)
+    for f in glob.glob(os.path.join(d, "mac.*.ndjson")):
+        os.remove(f)
+    core.run_vh("mcdata", d, shards=8, cert=True)
+    return d, sorted(glob.glob(os.path.join(d, "mac.*.ndjson")))
+
+
+def _report(rep, pid, res, mine, what):
+    """mine(name) -> does the violated clause belong to this property's reading"""
+    nviol = 0
+    for r in res:
+        lines = {}
+        for m in r["mismatches"]:
+            mm = _MM.match(m)
+            if mm and mine(mm.group(2)):
+                lines.setdefault(int(mm.group(1)), []).append(m)
+        if not r["accepted"] and not lines:
+            # a trace the specification cannot follow at all is everybody's problem
+            lines[r.get("matched", 0) + 1] = ["trace rejected"]
+        for ln in sorted(lines):
+            nviol += 1
+            if nviol > 20:
+                continue
+            hist = macfam.history_of(r["trace"], ln)
+            ev = hist[-1]
+            rep.violation({"property": pid, "mc": True, "cert": True, "ops": macfam.ops_of(hist),
+                           "failing_event": {k: ev[k] for k in ev if k != "opj"}, "mismatch": [x[:1200] for x in lines[ln][:3]]},
+                          f"multicast build, {what}: event {len(hist)} ({ev['ev']}): {lines[ln][0][:260]}")
 
 
 def extra(pid):
     def fn(rep, wd):
-        d = os.path.join(wd, "mcdata")
-        os.makedirs(d, exist_ok=True)
-        for f in glob.glob(os.path.join(d, "mac.*.ndjson")):
-            os.remove(f)
-        core.run_vh("mcdata", d, shards=4, cert=True)
-        traces = sorted(glob.glob(os.path.join(d, "mac.*.ndjson")))
-        res = validate(pid, traces)
-        nviol = 0
-        for r in res:
-            lines = {}
-            for m in r["mismatches"]:
-                mm = _MM.match(m)
-                if mm:
-                    lines.setdefault(int(mm.group(1)), []).append(m)
-            if not r["accepted"] and not lines:
-                lines[r.get("matched", 0) + 1] = ["trace rejected"]
-            for ln in sorted(lines):
-                nviol += 1
-                if nviol > 20:
-                    continue
-                hist = macfam.history_of(r["trace"], ln)
-                ev = hist[-1]
-                intent = (ev.get("calls") or [{}])[0].get("intent", "")
-                rep.violation({"property": pid, "mc": True, "cert": True, "ops": macfam.ops_of(hist),
-                               "failing_event": {k: ev[k] for k in ev if k != "opj"}, "mismatch": [x[:1200] for x in lines[ln][:3]]},
-                              f"multicast build, data path: event {len(hist)} ({ev['ev']} {intent}): {lines[ln][0][:260]}")
+        d, traces = record(wd)
         n, hist, kinds, distinct = macfam.summarise(traces)
-        frames = sum(1 for t in traces for e in core.read_events(t) if e["ev"] == "a_rxc")
+        frames = sum(1 for t in traces for e in core.read_events(t) if e["ev"] in ("a_rxc", "a_proc")
+                     for c in e.get("calls", []) if c.get("out") == "frame")
+        if pid == "C06":
+            res, _ = macfam.validate_cert(pid, traces, d)
+            _report(rep, pid, res, lambda name: name.startswith("C06"), "uplink counters")
+            module, rule = "CertTrace.tla", ("the C06 clauses of CertTrace.tla on the histories of `vh mcdata`: every frame handed to the radio - application uplinks, the "
+                                            "set-up handler's own FPort-200 uplinks, and uplinks whose receive procedure was ended by a multicast frame heard in RX1 / RX2 - "
+                                            "carries a counter strictly greater than the previous one and a MIC that verifies under it")
+        else:
+            res = validate(pid, traces, d)
+            pre = CLAUSES[pid]
+            _report(rep, pid, res, lambda name: name.startswith(pre), "set-up handler" if pid == "C08" else "data path")
+            sigs = open_signatures()
+            seen = {}
+            for r in res:
+                for t in r.get("known", []):
+                    m = _KN.match(t)
+                    if m and m.group(2) in sigs:
+                        seen[m.group(2)] = seen.get(m.group(2), 0) + 1
+            for sig, cnt in sorted(seen.items()):
+                if SIG_OWNER.get(sig) == pid:
+                    rep.known_finding(f"[{sigs[sig]['id']}] {sigs[sig]['line'][:400]} ({cnt} answers in this run)")
+            module = "McTrace.tla"
+            rule = ("device built with cargo feature `multicast` (non-default), async + Class C; McTrace.tla decodes every heard and every transmitted frame "
+                    "itself. Data-path histories: a group (id 0 and 3) for six (minMcFCount, maxMcFCount) ranges (from 0; from 5; across the 16-bit roll-over; "
+                    "across a 17-bit boundary; the whole 32-bit range; an empty range), frames at, below and above minMcFCount, in order, repeated, out of "
+                    "order, at and beyond maxMcFCount, with a broken MIC and under another address. Group-table histories: six scripted ones (two groups, "
+                    "status / delete / delete of an empty slot, two slots under one address; a group set up again and under a new key; several requests "
+                    "in one frame; unimplemented, unknown and truncated requests inside a stream; answers beyond the 242 octets of one uplink; frames of "
+                    "a group heard in RX1, RX2, before RX1 and between the windows of an uplink) and seeded random walks over the table (set up / replace "
+                    "/ delete / status / version requests via RX1, RX2 and Class C listening, frames of live, deleted and replaced groups with next, later, "
+                    "repeated, earlier, minimum and maximum counters)")
         return {"_states": sum(r["distinct"] for r in res), "_transitions": sum(r["generated"] for r in res),
                 "_evaluations": n, "_distinct": frames,
-                "multicast_data_path": {"module": "McTrace.tla", "histories": hist, "events": n, "frames_judged": frames,
-                                        "rule": "device built with cargo feature `multicast` (non-default), async + Class C: a group (id 0 and 3) set up by an authentic "
-                                                "McGroupSetupReq for six (minMcFCount, maxMcFCount) ranges (from 0; from 5; across the 16-bit roll-over of the wire "
-                                                "counter; across a 17-bit boundary; the whole 32-bit range; an empty range), then frames of the group heard one at a "
-                                                "time: at, below and above minMcFCount, in order, repeated, out of order, at and beyond maxMcFCount, with a broken "
-                                                "MIC and under another address; McTrace.tla re-derives the session keys (TS005 key hierarchy, Aes.tla) and decides "
-                                                "acceptance, the 32-bit counter reported and the payloads delivered"}}
+                "multicast_build": {"module": module, "histories": hist, "events": n, "frames_heard": frames, "rule": rule}}
     return fn
 
 
@@ -64,8 +116,14 @@ def replay(pid, path):
         json.dump({"ops": r["ops"], "hseed": r.get("hseed", "")}, f)
     core.run_vh("macreplay", wd, extra=[f"in={src}"], cert=True)
     traces = sorted(glob.glob(os.path.join(wd, "mac.*.ndjson")))
-    res = validate(rp, traces)
-    bad = [m for x in res for m in x["mismatches"]] + [1 for x in res if not x["accepted"]]
+    if pid == "C06":
+        res, _ = macfam.validate_cert(rp, traces, wd)
+        ok = lambda name: name.startswith("C06")
+    else:
+        res = validate(rp, traces, wd)
+        pre = CLAUSES[pid]
+        ok = lambda name: name.startswith(pre)
+    bad = [m for x in res for m in x["mismatches"] if _MM.match(m) and ok(_MM.match(m).group(2))] + [1 for x in res if not x["accepted"]]
     for m in [b for b in bad if isinstance(b, str)][:3]:
         print("REPLAY mismatch:", m[:400])
     print("REPLAY", "violation reproduced" if bad else "no violation")
